@@ -97,13 +97,14 @@ class DictStore:
 
     def __init__(self):
         self.d = {}  # key index -> dict(tick, cls, meta: {mkey: (bytes, with_data, valid)})
+        self.dm = {}  # key index -> {mkey: (bytes, False, True)}: metadata recorded for a call that has no memento (yet / any more)
 
     def live(self, ki):
         return ki in self.d
 
     def memoize(self, ki, tick, cls):
         old = self.d.get(ki)
-        meta = old["meta"] if old else {}
+        meta = old["meta"] if old else self.dm.pop(ki, {})
         # metadata stored with the *data* of a superseded result is undefined from now on
         meta = {k: (v[0], v[1], v[2] and not v[1]) for k, v in meta.items()}
         self.d[ki] = {"tick": tick, "cls": cls, "meta": meta}
@@ -111,10 +112,12 @@ class DictStore:
     def forget(self, kis):
         for ki in list(kis):
             self.d.pop(ki, None)
+            self.dm.pop(ki, None)
 
     def canon(self, rank):
-        return tuple(sorted((ki, rank(e["tick"]), e["cls"], tuple(sorted(e["meta"].items())))
-                            for ki, e in self.d.items()))
+        return (tuple(sorted((ki, rank(e["tick"]), e["cls"], tuple(sorted(e["meta"].items())))
+                             for ki, e in self.d.items())),
+                tuple(sorted((ki, tuple(sorted(mm.items()))) for ki, mm in self.dm.items() if mm)))
 
 
 class StoreRun:
@@ -348,9 +351,17 @@ class StoreRun:
             return self.check_list_mementos(be, op[1], op[2] if len(op) > 2 else None)
         if kind == "wmeta":
             _, ki, mkey, with_data = op
-            if not m.live(ki):
-                return None
             sym, arg = self.keys[ki]
+            if not m.live(ki):
+                # a record for a call without a memento (a log flushed late, a call that was never memoized): it is kept
+                # under the call like any other and goes when the call is forgotten
+                if with_data:
+                    return None
+                self.tick += 1
+                val = ("meta%06d" % self.tick).encode()
+                be.write_metadata(storeh.rah(sym, arg), mkey, val)
+                m.dm.setdefault(ki, {})[mkey] = (val, False, True)
+                return None
             self.tick += 1
             val = ("meta%06d" % self.tick).encode()
             ck = None
@@ -441,6 +452,11 @@ class StoreRun:
         got = be.list_functions()
         names = sorted(f.qualified_name for f in got)
         want = sorted({storeh.qname(self.keys[k][0]) for k in self.model.d})
+        meta_only = {storeh.qname(self.keys[k][0]) for k, mm in self.model.dm.items() if mm}
+        if set(want) <= set(names) <= set(want) | meta_only:
+            # a function for which nothing but metadata of calls without a memento is recorded has no live entry; whether
+            # it is listed is not defined by the dictionary (the filesystem backend lists its directory)
+            return None
         if self.faulted and set(want) <= set(names):
             # after an injected write error an empty function directory may remain: listing such a function (with no
             # mementos) is a residue of the fault, outside the dictionary behaviour this compares
@@ -469,7 +485,7 @@ class StoreRun:
     def check_read_metadata(self, be, ki, mkey):
         sym, arg = self.keys[ki]
         e = self.model.d.get(ki)
-        ent = e["meta"].get(mkey) if e else None
+        ent = e["meta"].get(mkey) if e else self.model.dm.get(ki, {}).get(mkey)
         if ent is not None and not ent[2]:
             return None  # stored with a superseded data object: undefined in the model
         got = be.read_metadata(storeh.rah(sym, arg), mkey)
@@ -508,7 +524,7 @@ class StoreRun:
                     if b:
                         return ("probe-" + b[0], "fresh view, " + b[1])
             else:
-                for mkey in ("log",):
+                for mkey in ("log", ""):
                     b = self.check_read_metadata(view, ki, mkey)
                     if b:
                         return ("probe-" + b[0], "fresh view, " + b[1])
